@@ -142,8 +142,12 @@ def sem_sib_codes(ck: Checker, den: Denotations, rule='C01.SEM-SIB'):
              'emplace_gate call does not pass gate_type=binary_tt_to_type[operation], operands=(left, right)', construct='add_gate_from_tt emplace_gate')
 
 
-def apply_rules(ck: Checker, rule='C01.APPLY'):
-    """Shape of the evaluators in circuit.py."""
+def apply_rules(ck: Checker, rule='C01.APPLY', covered_by='C01.EVAL (fold of the evaluators over model circuits)'):
+    """Shape of the evaluators in circuit.py.  These rules state the structure for every circuit, but they only know one
+    way of writing it: where the shape is not the known one the instance is handed to the fold (`covered_by`), which decides
+    the behaviour of whatever is written there; a recognised shape with a wrong detail is still reported by the fold."""
+    def chk(good, rule_, mod_, node_, what, msg, construct=None):
+        return ck.decide(True if good else None, rule_, mod_, node_, what, msg, construct=construct, covered_by=covered_by)
     repo = ck.repo
     m = repo.mod(CIRCUIT)
 
@@ -157,7 +161,8 @@ def apply_rules(ck: Checker, rule='C01.APPLY'):
     for fname, order_src in (('Circuit.evaluate_full_circuit', 'topsort'), ('Circuit.evaluate_circuit', 'stack')):
         fn = m.func(fname)
         apps = operator_applications(fn)
-        ck.need(len(apps) >= 1, f'{m.rel}: {fname} applies no gate operator (shape changed)')
+        if not apps:
+            ck.skip(rule, m, fn, f'{fname}: value of a gate = its operator applied to the values of its operands in order', covered_by, construct=f'{fname} operator application')
         for app in apps:
             st = m.enclosing_stmt(app)
             g = app.func.value
@@ -175,7 +180,7 @@ def apply_rules(ck: Checker, rule='C01.APPLY'):
                             good = True
                         else:
                             why = f'operand values come from `{norm(gen)}`: not every operand of the gate, in operand order, from the one assignment map'
-            ck.check(good, rule, m, st, f'{fname}: value of a gate = its operator applied to the values of its operands in order',
+            chk(good, rule, m, st, f'{fname}: value of a gate = its operator applied to the values of its operands in order',
                      why, construct=f'{fname} operator application')
         # the caller's assignment is copied: values computed by one call never leak into the next
         amap_def = None
@@ -183,7 +188,7 @@ def apply_rules(ck: Checker, rule='C01.APPLY'):
             if isinstance(node, (ast.Assign, ast.AnnAssign)) and norm(node.targets[0] if isinstance(node, ast.Assign) else node.target) == 'assignment_dict':
                 amap_def = node
         p_assign = fn.args.args[1].arg
-        ck.check(amap_def is not None and norm(amap_def.value) in (f'dict({p_assign})', f'{p_assign}.copy()', f'copy.copy({p_assign})'), rule, m, amap_def or fn,
+        chk(amap_def is not None and norm(amap_def.value) in (f'dict({p_assign})', f'{p_assign}.copy()', f'copy.copy({p_assign})'), rule, m, amap_def or fn,
                  f'{fname}: gate values are written into a private copy of the assignment',
                  f'`{norm(amap_def) if amap_def is not None else None}`: the caller\'s dictionary is used as the work map, so values of inner gates from an earlier call are trusted by the next one',
                  construct=f'{fname} private assignment map')
@@ -198,7 +203,7 @@ def apply_rules(ck: Checker, rule='C01.APPLY'):
                 b = lp.body[0]
                 if isinstance(b, ast.Assign) and isinstance(b.targets[0], ast.Subscript) and norm(b.targets[0].slice) == lab and norm(b.value) == f'{p}[{i}]':
                     good = True
-        ck.check(good, rule, m, fn, f'{fname}: the i-th value is bound to the i-th input label',
+        chk(good, rule, m, fn, f'{fname}: the i-th value is bound to the i-th input label',
                  'no loop `for i, label in enumerate(self._inputs): A[label] = inputs[i]`', construct=f'{fname} input binding')
     fn = m.func('Circuit.evaluate')
     rets = [n for n in ast.walk(fn) if isinstance(n, ast.Return)]
@@ -207,16 +212,16 @@ def apply_rules(ck: Checker, rule='C01.APPLY'):
         and not n.generators[0].ifs and isinstance(n.elt, ast.Subscript) and norm(n.elt.slice) == norm(n.generators[0].target)
         for n in ast.walk(rets[0])
     )
-    ck.check(good, rule, m, rets[0] if rets else fn, 'evaluate returns one value per output, in output order (duplicates kept)',
+    chk(good, rule, m, rets[0] if rets else fn, 'evaluate returns one value per output, in output order (duplicates kept)',
              'result is not `[answer[o] for o in self._outputs]`', construct='Circuit.evaluate result')
     delegs = [c for c in calls_in(fn) if call_name(c) in ('evaluate_circuit_outputs', 'evaluate_circuit')]
-    ck.check(len(delegs) == 1, rule, m, fn, 'evaluate delegates to the demand-driven evaluator', 'no delegation to evaluate_circuit(_outputs)', construct='Circuit.evaluate delegation')
+    chk(len(delegs) == 1, rule, m, fn, 'evaluate delegates to the demand-driven evaluator', 'no delegation to evaluate_circuit(_outputs)', construct='Circuit.evaluate delegation')
     fn = m.func('Circuit.evaluate_circuit_outputs')
     delegs = [c for c in calls_in(fn, 'evaluate_circuit')]
     rets = [n for n in ast.walk(fn) if isinstance(n, ast.Return)]
     good = len(delegs) == 1 and len(delegs[0].args) == 1 and not delegs[0].keywords and len(rets) == 1 and isinstance(rets[0].value, ast.DictComp) \
         and norm(rets[0].value.generators[0].iter) in ('self._outputs', 'self.outputs') and not rets[0].value.generators[0].ifs
-    ck.check(good, rule, m, fn, 'evaluate_circuit_outputs = evaluate_circuit restricted to the outputs',
+    chk(good, rule, m, fn, 'evaluate_circuit_outputs = evaluate_circuit restricted to the outputs',
              'shape changed', construct='Circuit.evaluate_circuit_outputs body')
     fn = m.func('Circuit.evaluate_at')
     delegs = [c for c in calls_in(fn, 'evaluate_circuit')]
@@ -231,7 +236,7 @@ def apply_rules(ck: Checker, rule='C01.APPLY'):
             oi = fn.args.args[2].arg
             sub = m.parents.get(c)
             good = norm(lab_expr) == f'self.output_at_index({oi})' and isinstance(sub, ast.Subscript) and norm(sub.slice) == norm(outs.elts[0])
-    ck.check(good, rule, m, fn, 'evaluate_at evaluates exactly the requested output and returns its value',
+    chk(good, rule, m, fn, 'evaluate_at evaluates exactly the requested output and returns its value',
              'not of the form evaluate_circuit(A, outputs=[self.output_at_index(i)])[that label]', construct='Circuit.evaluate_at delegation')
     # demand-driven evaluator: explicit stack discipline
     fn = m.func('Circuit.evaluate_circuit')
@@ -253,7 +258,7 @@ def apply_rules(ck: Checker, rule='C01.APPLY'):
                 and isinstance(cond.body[0], ast.Assign) and norm(cond.body[0].targets[0]) == f'{amap}[{g}.label]'
             good = push_ok and eval_ok
             why = f'push unevaluated operands: {push_ok}; evaluate-and-pop only when nothing was pushed: {eval_ok}'
-    ck.check(good, rule, m, wl[0] if wl else fn, 'evaluate_circuit: a gate is evaluated and popped only when the top of the stack is still that gate, i.e. every operand already has a value; otherwise its unevaluated operands are pushed',
+    chk(good, rule, m, wl[0] if wl else fn, 'evaluate_circuit: a gate is evaluated and popped only when the top of the stack is still that gate, i.e. every operand already has a value; otherwise its unevaluated operands are pushed',
              why, construct='Circuit.evaluate_circuit stack loop')
     seeds = [n for n in fn.body if isinstance(n, ast.For) and norm(n.iter) == '_outputs']
     ok = len(seeds) == 1 and norm(fn.body[fn.body.index(seeds[0]) - 1]) == '_outputs = self._outputs if outputs is None else outputs'
@@ -261,7 +266,7 @@ def apply_rules(ck: Checker, rule='C01.APPLY'):
         o = norm(seeds[0].target)
         ok = len(seeds[0].body) == 1 and isinstance(seeds[0].body[0], ast.If) and norm(seeds[0].body[0].test) in (f'{o} not in self._inputs', f'{o} not in assignment_dict') \
             and [norm(x) for x in seeds[0].body[0].body] == [f'queue_.append({o})']
-    ck.check(ok, rule, m, seeds[0] if seeds else fn, 'evaluate_circuit starts from the requested outputs (all outputs by default), skipping those that are inputs',
+    chk(ok, rule, m, seeds[0] if seeds else fn, 'evaluate_circuit starts from the requested outputs (all outputs by default), skipping those that are inputs',
              'seeding of the stack changed', construct='Circuit.evaluate_circuit seeding')
 
     # no exit bypasses the evaluation loop (must-pass-through): an early return would hand out unevaluated gates
@@ -276,7 +281,7 @@ def apply_rules(ck: Checker, rule='C01.APPLY'):
         from ..guards import dominating_tests
         params = {a.arg for a in f.args.args + f.args.kwonlyargs} - {'self'}
         early = [r for r in early if not dominating_tests(m, f, r) or any(isinstance(x, ast.Name) and x.id in params for t, _ in dominating_tests(m, f, r) for x in ast.walk(t))]
-        ck.check(loops and rets and not early, rule, m, early[0] if early else f, f'{q.split(".")[1]}: every exit lies behind the evaluation loop',
+        chk(loops and rets and not early, rule, m, early[0] if early else f, f'{q.split(".")[1]}: every exit lies behind the evaluation loop',
                  (f'`{norm(m.enclosing_stmt(early[0]))[:120]}` returns before the gates were evaluated: constants and zero-input circuits come back Undefined under a total assignment' if early else 'evaluation loop or return not found'),
                  construct=f'{q} exits behind the evaluation loop')
 
@@ -289,7 +294,7 @@ def apply_rules(ck: Checker, rule='C01.APPLY'):
             first = node.args[0] if node.args else None
             good = isinstance(first, ast.Tuple) and [norm(e) for e in first.elts] == ['False', 'True'] and len(node.args) == 1 \
                 and [k.arg for k in node.keywords] == ['repeat']
-            ck.check(good, rule, m, node, 'assignments are enumerated as product((False, True), repeat=...) (truth-table order)',
+            chk(good, rule, m, node, 'assignments are enumerated as product((False, True), repeat=...) (truth-table order)',
                      f'enumeration `{norm(node)}` is not in truth-table order',
                      construct=f'{m.qualname_of(node)}: {norm(node)}')
     ck.need(n_enum >= 8, f'{m.rel}: only {n_enum} product enumerations found in Circuit (expected >= 8)')
@@ -297,11 +302,11 @@ def apply_rules(ck: Checker, rule='C01.APPLY'):
     fn = m.func('Circuit.get_truth_table')
     src = norm(fn.body[-1])
     good = 'zip(*(self.evaluate(list(x)) for x in itertools.product((False, True), repeat=self.input_size)))' in src
-    ck.check(good, rule, m, fn.body[-1], 'truth table = transpose of evaluate over all assignments in order', 'shape changed', construct='Circuit.get_truth_table body')
+    chk(good, rule, m, fn.body[-1], 'truth table = transpose of evaluate over all assignments in order', 'shape changed', construct='Circuit.get_truth_table body')
     fn = m.func('Circuit.get_gates_truth_table')
     src = norm(fn)
     good = 'zip(self.inputs, _input_values)' in src.replace('self._inputs', 'self.inputs') and 'self.evaluate_full_circuit(_input_assignment)' in src
-    ck.check(good, rule, m, fn, 'per-gate truth tables come from the topological evaluator with inputs bound in order', 'shape changed', construct='Circuit.get_gates_truth_table body')
+    chk(good, rule, m, fn, 'per-gate truth tables come from the topological evaluator with inputs bound in order', 'shape changed', construct='Circuit.get_gates_truth_table body')
 
 
 def run(ck: Checker):
@@ -342,6 +347,10 @@ def run(ck: Checker):
         if not any(o.rule == 'C01.TPL' and o.loc.func == hname for o in ck.obligations):
             ck.ok('C01.SEM-SIB', hmod, hmod.func(hname), f'bench rewrite of {t} denotes {t}', construct=f'{hname} denotes {t}')
     ck.floor('C01.SEM-SIB', 100)
+    ck.rule('C01.EVAL', 'the evaluators (evaluate_full_circuit, the explicit-stack evaluate_circuit, evaluate_circuit_outputs, evaluate, evaluate_at, get_truth_table) folded on instances of the repository\'s Circuit class over a family of model circuits (stored operands-first and users-first) and every assignment over False/True/Undefined: denotation under total assignments, soundness and monotonicity under partial ones, positional input binding, private work map')
+    from .. import eval_fold
+    eval_fold.fold_evaluators(ck, 'C01.EVAL')
+    ck.floor('C01.EVAL', 6)
     apply_rules(ck)
     ck.floor('C01.APPLY', 18)
     # the topological evaluator and per-gate truth tables walk the users index: gates with repeated operands must be indexed once per occurrence
